@@ -212,6 +212,10 @@ func init() {
 			Run: func(P *Program, R *Report) { oversizedHashRuleAs(P, R, "C05.f") }},
 		Rule{ID: "C05.j", Explain: "no failure is dropped while signing and verifying CL signatures (clsignature.go): a failed representation, inverse, prime draw or exponentiation ends the call (same rule as C08.g: the error a call returns has a use - a nil test or a return - before it is overwritten, shadowed or left behind).",
 			Run: func(P *Program, R *Report) { errorResultsUsedRule(P, R, "C05.j", inFiles(P, "clsignature.go"), nil, 5) }},
+		Rule{ID: "C05.k", Explain: "completing a signature does not change the issuer's message: ConstructCredential computes v = v'' + v' into a fresh integer (the in-place obligations of C06.j on IssueSignatureMessage, same rule) - written in place, the same honest signature is refused when the message is looked at again.",
+			Run: func(P *Program, R *Report) {
+				sharedRule(P, R, "C06", "C06.j", "C05.k", func(c string) bool { return strings.Contains(c, "ConstructCredential") || strings.Contains(c, "Signature") })
+			}},
 	)
 }
 
